@@ -11,6 +11,8 @@ import (
 	"testing"
 
 	"github.com/oklog/ulid/v2"
+
+	"github.com/thanos-io/thanos/pkg/block/metadata"
 )
 
 func TestGovcReplay(t *testing.T) {
@@ -46,6 +48,45 @@ func TestGovcReplay(t *testing.T) {
 			}
 			if got := contains(s1, s2); got != want && len(msgs) < 3 {
 				msgs = append(msgs, fmt.Sprintf("contains(%v, %v) = %v, want %v", s1, s2, got, want))
+			}
+		}
+	}
+	// filterGroup on the real filter: a hidden block must be covered by ONE block that stays
+	mk := func(id uint64, srcs ...uint64) *metadata.Meta {
+		m := &metadata.Meta{}
+		m.ULID = ulid.MustNew(id, nil)
+		for _, x := range srcs {
+			m.Compaction.Sources = append(m.Compaction.Sources, ulid.MustNew(x, nil))
+		}
+		return m
+	}
+	groups := [][]*metadata.Meta{
+		{mk(10, 1, 2), mk(11, 3, 4), mk(12, 2, 3)},
+		{mk(10, 1, 2), mk(11, 2, 3), mk(12, 1, 3), mk(13, 1)},
+		{mk(10, 1, 2, 3), mk(11, 1, 2), mk(12, 3), mk(13, 4)},
+		{mk(10, 1), mk(11, 2), mk(12, 1, 2), mk(13, 2, 3)},
+	}
+	for gi, g := range groups {
+		ch := make(chan ulid.ULID, len(g))
+		cp := append([]*metadata.Meta{}, g...)
+		NewDeduplicateFilter(1).filterGroup(cp, ch)
+		close(ch)
+		hidden := map[ulid.ULID]bool{}
+		for id := range ch {
+			hidden[id] = true
+		}
+		for _, child := range g {
+			if !hidden[child.ULID] {
+				continue
+			}
+			covered := false
+			for _, parent := range g {
+				if parent != child && !hidden[parent.ULID] && contains(parent.Compaction.Sources, child.Compaction.Sources) {
+					covered = true
+				}
+			}
+			if !covered && len(msgs) < 4 {
+				msgs = append(msgs, fmt.Sprintf("group %d: block %s is hidden as a duplicate although no single block that stays was built from all of its sources", gi, child.ULID))
 			}
 		}
 	}
